@@ -314,7 +314,7 @@ def command_cases(draw, command=None):
     if conv == "ugrid":
         spec["geom"]["enc"]["coords_as"] = "var"
     tname, tdim = c12.TIME_NAMES.get(conv, ("time", "time"))
-    u = draw(c17.unit_cases())
+    u = draw(c17.unit_cases(early_epochs=False))
     nt = draw(st.integers(1, 2))
     spec["time"] = {"name": tname, "dim": tdim, "units": c17.build_units(u),
                     "values": list(range(nt)), "dtype": "f8"}
@@ -342,6 +342,8 @@ def command_cases(draw, command=None):
         "dimension": draw(st.sampled_from([None, "station", "obs"])),
         "format": draw(st.sampled_from(["geojson", "wkt", "wkb", "shapefile", "auto.geojson",
                                         "auto.json", "auto.wkt", "auto.wkb", "auto.shp"])),
+        "file_reused": draw(st.booleans()),
+        "dotted_stem": draw(st.booleans()),
         "repeat_row": draw(st.sampled_from([0, 0, 1, 2, 3])),
         "explicit_extension": draw(st.sampled_from([".out", "", ".geojson", ".json", ".wkt", ".wkb",
                                                     ".shp", ".txt"])),
@@ -396,7 +398,16 @@ def check_command(case, ctx):
                 arg = json.dumps(shapely.geometry.mapping(geom))
             else:
                 arg = os.path.join(tmp, "clip.geojson")
-                json.dump(shapely.geometry.mapping(geom), open(arg, "w"))
+                if case.get("file_reused"):
+                    # history: the same file name held another region a moment ago and was used
+                    # for a clip in this very process
+                    everything = box(bbox[0] - 1, bbox[1] - 1, bbox[2] + 1, bbox[3] + 1)
+                    with open(arg, "w") as handle:
+                        json.dump(shapely.geometry.mapping(everything), handle)
+                    run_cli(["clip", src, arg, os.path.join(tmp, "earlier_out.nc")])
+                    ctx.label("clip_file_reused_with_new_content")
+                with open(arg, "w") as handle:
+                    json.dump(shapely.geometry.mapping(geom), handle)
             if not any(p is not None and p.intersects(geom) for p in polygons):
                 ctx.label("empty_selection_skipped")
                 return
@@ -484,14 +495,15 @@ def check_command(case, ctx):
             ext = case.get("explicit_extension", ".out") if explicit else "." + fmt.split(".")[1]
             kind = fmt if explicit else {"geojson": "geojson", "json": "geojson", "wkt": "wkt",
                                          "wkb": "wkb", "shp": "shapefile"}[fmt.split(".")[1]]
-            target = os.path.join(tmp, "cli_geom" + ext)
+            stem = ".2024-05" if case.get("dotted_stem") else ""      # cells.2024-05.shp
+            target = os.path.join(tmp, "cli_geom" + stem + ext)
             argv = ["export-geometry", src, target] + (["-f", fmt] if explicit else [])
             ctx.at("C20.export_geometry")
             status, log = run_cli(argv)
             ctx.check(status == 0, "C20.export_geometry",
                       lambda: f"emsarray {' '.join(argv[:1] + argv[2:])} exited with {status}: {log[-500:]}")
             lib = emsarray.open_dataset(src)
-            target_lib = os.path.join(tmp, "lib_geom" + ext)
+            target_lib = os.path.join(tmp, "lib_geom" + stem + ext)
             writer = {"geojson": geometry_ops.write_geojson, "wkt": geometry_ops.write_wkt,
                       "wkb": geometry_ops.write_wkb, "shapefile": geometry_ops.write_shapefile}[kind]
             writer(lib, target_lib)
